@@ -89,6 +89,17 @@ Canonical(st) ==
             /\ \A x \in RangeOf(n.c) : NodeOf(st, x).k \notin {"F", "T", n.k}
        /\ n.k = "not" => Len(n.c) = 1 /\ NodeOf(st, n.c[1]).k \notin {"F", "T", "not"}
 
+\* LineageStore::metadata: what evaluation strategies are chosen by (has_cycle is FALSE for every Canonical store:
+\* children precede their parents)
+RECURSIVE Reach(_, _)
+Reach(st, id) == {id} \cup UNION {Reach(st, x) : x \in RangeOf(NodeOf(st, id).c)}
+Meta(st, id, exclusive) ==
+  LET r  == Reach(st, id)
+      hn == \E x \in r : NodeOf(st, x).k = "not"
+  IN [neg |-> hn, excl |-> \E x \in r : NodeOf(st, x).k = "lit" /\ NodeOf(st, x).s \in exclusive, cyc |-> FALSE, mono |-> ~hn]
+\* a formula reported monotone denotes a monotone function: adding seeds to a world never falsifies it
+MonotoneSound(st, id) == Meta(st, id, {}).mono => \A w \in Den(st, id), v \in Worlds : w \subseteq v => v \in Den(st, id)
+
 \* ---- state machine for the exhaustive check
 VARIABLES store, last
 lvars == <<store, last>>
@@ -109,7 +120,7 @@ ExactLast ==
     [] last.op = "and" -> Den(store, last.id) = {w \in Worlds : \A i \in 1..Len(last.args) : w \in Den(store, last.args[i])}
     [] last.op = "or"  -> Den(store, last.id) = {w \in Worlds : \E i \in 1..Len(last.args) : w \in Den(store, last.args[i])}
     [] OTHER -> TRUE
-LInv == Canonical(store) /\ ExactLast
+LInv == Canonical(store) /\ ExactLast /\ \A i \in Ids(store) : MonotoneSound(store, i)
 \* handles are for ever: the store only grows
 Grows == [][Len(store') >= Len(store) /\ SubSeq(store', 1, Len(store)) = store]_lvars
 =============================================================================
